@@ -2,6 +2,9 @@ package main
 
 import (
 	"fmt"
+	"os"
+	"os/exec"
+	"sort"
 
 	"verif/gen"
 )
@@ -12,6 +15,22 @@ func init() {
 		fmt.Println("built", t.Gocc, t.Batch)
 		for _, f := range setupHooks {
 			f(t)
+		}
+		if tier == "all" {
+			// warm the Go build cache (generated corpora compile from cache afterwards): every quick check once
+			os.Setenv("VERIF_WARMUP", "1")
+			var ids []string
+			for id := range checks {
+				if id != "setup" {
+					ids = append(ids, id)
+				}
+			}
+			sort.Strings(ids)
+			for _, id := range ids {
+				cmd := exec.Command(os.Args[0], id, "quick")
+				cmd.Stdout, cmd.Stderr = os.Stdout, os.Stderr
+				cmd.Run()
+			}
 		}
 		return 0
 	}
